@@ -213,6 +213,13 @@ class Interp:
                     self.bind(f["pat"], v.fields[f["name"]], env)
                 return
             raise Unanalysable(f"struct pattern against {v!r}")
+        if k == "SlicePat" and pat.get("mid") is None and not pat["after"]:
+            v = self.deref(val)
+            if isinstance(v, Vec) and eq(v.length(), len(pat["before"])):
+                for i, p in enumerate(pat["before"]):
+                    self.bind(p, v.index(sp.Integer(i), self.bounds), env)
+                return
+            raise Unanalysable(f"slice pattern against {v!r}")
         raise Unanalysable(f"pattern kind {k}")
 
     def deref(self, v):
@@ -751,6 +758,8 @@ class Interp:
             return vt
         if isinstance(vt, Enum) and isinstance(vf, Enum) and vt.variant == vf.variant and len(vt.payload) == 1 and vt.payload[0] is vf.payload[0]:
             return vt
+        if isinstance(vt, Vec) and isinstance(vf, Vec):
+            return self.merge_val(c, vt, vf, None)
         return Ite(c, vt, vf)
 
     def learn(self, c):
@@ -814,6 +823,12 @@ class Interp:
                             return hi
                     except Unanalysable:
                         pass
+        if isinstance(a, Vec) and isinstance(b, Vec) and eq(a.length(), b.length()):
+            try:
+                z = zip_vecs(a, b, self.bounds)
+                return z.map(lambda t: t.items[0] if val_eq(t.items[0], t.items[1]) else Ite(c, t.items[0], t.items[1]))
+            except Unanalysable:
+                pass
         if isinstance(a, IntV) and isinstance(b, IntV):
             # join: one side is the other plus havoc atoms (>= 0, unconstrained) -> the general side
             for lo, hi in ((a, b), (b, a)):
